@@ -36,6 +36,9 @@ impl Chooser {
     pub fn pick<'a, T>(&mut self, xs: &'a [T]) -> &'a T {
         &xs[self.next(xs.len())]
     }
+    pub fn position(&self) -> usize {
+        self.pos
+    }
     /// a decision derived from the whole choice vector without consuming a choice (so that
     /// features added later do not change how recorded choice vectors decode); an all-zero
     /// vector (the simplest case) gives 0
@@ -67,6 +70,20 @@ pub struct Names {
 }
 
 impl Names {
+    /// some placeholder / some integer placeholder, chosen without consuming a choice
+    pub fn some_placeholder(&self, c: &Chooser) -> Option<&(String, fol::Sort)> {
+        if self.placeholders.is_empty() {
+            return None;
+        }
+        Some(&self.placeholders[c.aux(100 + c.position() as u64, self.placeholders.len())])
+    }
+    pub fn some_int_placeholder(&self, c: &Chooser) -> Option<&(String, fol::Sort)> {
+        let ints: Vec<&(String, fol::Sort)> = self.placeholders.iter().filter(|p| p.1 == fol::Sort::Integer).collect();
+        if ints.is_empty() {
+            return None;
+        }
+        Some(ints[c.aux(200 + c.position() as u64, ints.len())])
+    }
     /// identifier shapes that interact with anthem's TPTP name mangling but are handled:
     /// names ending in _i/_g/_s/__s, h-/t-prefixed names, a symbol named like a 0-ary predicate
     pub fn tricky(c: &mut Chooser) -> Names {
@@ -93,6 +110,10 @@ impl Names {
             // a 0-ary output predicate whose name is also used as a symbol (anthem renames the symbol)
             n.outputs.push(p("z", 0));
             n.symbols = vec!["z".into(), "z0".into(), "zA".into(), "y".into(), "z_".into()];
+            // ... next to a symbol that is written like the renamed one
+            if c.aux(9, 2) == 1 {
+                n.symbols = vec!["z".into(), "z0".into(), "z__s".into(), "y".into(), "z__s__s".into()];
+            }
         }
         n
     }
@@ -108,6 +129,10 @@ impl Names {
         }
         if c.flag(1, 5) {
             placeholders.push(("k".to_string(), fol::Sort::Symbol));
+        }
+        // a second integer placeholder whose name sorts before the others
+        if c.aux(5, 4) == 3 {
+            placeholders.push(("m".to_string(), fol::Sort::Integer));
         }
         // private names (equal length on both sides so that the second program can be a mutation
         // of the first): equal names (renaming needed), disjoint names, a clash with the `_p`
@@ -166,19 +191,19 @@ const RELS: [asp::Relation; 6] = [
 /// a small term over a bound variable, numerals and (integer) placeholders
 fn small_term(c: &mut Chooser, names: &Names, v: &str) -> asp::Term {
     match c.next(9) {
-        7 => match names.placeholders.first() {
+        7 => match names.some_int_placeholder(c) {
             // a placeholder that occurs only inside arithmetic
             Some((n, fol::Sort::Integer)) => binop(asp::BinaryOperator::Add, sym(n), num(1)),
             _ => num(3),
         },
-        8 => match names.placeholders.first() {
+        8 => match names.some_int_placeholder(c) {
             Some((n, fol::Sort::Integer)) => binop(asp::BinaryOperator::Multiply, num(2), sym(n)),
             _ => binop(asp::BinaryOperator::Subtract, var(v), num(1)),
         },
         0 | 1 => num(c.next(4) as isize),
         2 => var(v),
         3 => binop(asp::BinaryOperator::Add, var(v), num(1)),
-        4 => match names.placeholders.first() {
+        4 => match names.some_placeholder(c) {
             Some((n, _)) => sym(n),
             None => num(2),
         },
@@ -467,7 +492,7 @@ fn fnum(n: isize) -> fol::GeneralTerm {
 fn placeholder_term(names: &Names, c: &mut Chooser) -> fol::GeneralTerm {
     // in specification / user guide text a placeholder is written as a symbolic constant and
     // replaced by anthem; we generate the symbol form
-    match names.placeholders.first() {
+    match names.some_placeholder(c) {
         Some((n, _)) if c.flag(1, 2) => fol::GeneralTerm::SymbolicTerm(fol::SymbolicTerm::Symbol(n.clone())),
         _ => fnum(c.next(3) as isize),
     }
@@ -587,6 +612,17 @@ pub fn ug_assumptions(c: &mut Chooser, names: &Names) -> Vec<fol::AnnotatedFormu
             out.push(annotated(fol::Role::Assumption, fol::Direction::Universal, "n_bound", f));
         }
     }
+    // an assumption relating two placeholders
+    if names.placeholders.len() >= 2 && c.aux(6, 2) == 1 {
+        let a = &names.placeholders[0];
+        let b = &names.placeholders[names.placeholders.len() - 1];
+        let f = fcmp(
+            fol::GeneralTerm::SymbolicTerm(fol::SymbolicTerm::Symbol(b.0.clone())),
+            fol::Relation::LessEqual,
+            fol::GeneralTerm::SymbolicTerm(fol::SymbolicTerm::Symbol(a.0.clone())),
+        );
+        out.push(annotated(fol::Role::Assumption, fol::Direction::Universal, "", f));
+    }
     // an annotated formula of a role that a user guide ignores (with a warning): "no input holds";
     // it would change verdicts if it were used as an assumption
     if c.aux(1, 6) == 5 {
@@ -681,7 +717,88 @@ pub fn specification(c: &mut Chooser, names: &Names) -> fol::Specification {
         );
         formulas.push(annotated(fol::Role::Spec, direction(c), "range", f));
     }
+    // a specification that is silent about a propositional output predicate: the predicate then
+    // occurs in some of the emitted problems only
+    if let Some(last) = names.outputs.last() {
+        if last.1 == 0 && names.outputs.len() > 1 && c.aux(8, 2) == 1 {
+            formulas.retain(|f| !f.formula.predicates().iter().any(|q| q.symbol == last.0 && q.arity == 0));
+        }
+    }
     fol::Specification { formulas }
+}
+
+/// the symbolic constants written in a program (the checker's own traversal)
+pub fn program_symbols(p: &asp::Program) -> std::collections::BTreeSet<String> {
+    fn term(t: &asp::Term, out: &mut std::collections::BTreeSet<String>) {
+        match t {
+            asp::Term::PrecomputedTerm(asp::PrecomputedTerm::Symbol(s)) => {
+                out.insert(s.clone());
+            }
+            asp::Term::PrecomputedTerm(_) | asp::Term::Variable(_) => {}
+            asp::Term::UnaryOperation { arg, .. } => term(arg, out),
+            asp::Term::BinaryOperation { lhs, rhs, .. } => {
+                term(lhs, out);
+                term(rhs, out);
+            }
+        }
+    }
+    let mut out = std::collections::BTreeSet::new();
+    for r in &p.rules {
+        let head_atom = match &r.head {
+            asp::Head::Basic(a) | asp::Head::Choice(a) => Some(a),
+            asp::Head::Falsity => None,
+        };
+        for a in head_atom {
+            for t in &a.terms {
+                term(t, &mut out);
+            }
+        }
+        for f in &r.body.formulas {
+            match f {
+                asp::AtomicFormula::Literal(l) => {
+                    for t in &l.atom.terms {
+                        term(t, &mut out);
+                    }
+                }
+                asp::AtomicFormula::Comparison(cmp) => {
+                    term(&cmp.lhs, &mut out);
+                    term(&cmp.rhs, &mut out);
+                }
+            }
+        }
+    }
+    out
+}
+
+/// the symbolic constants of a task's source files that are not placeholders
+pub fn external_source_symbols(task: &ExternalTask) -> std::collections::BTreeSet<String> {
+    let mut out = program_symbols(&task.right);
+    if let Some(p) = &task.left_program {
+        out.extend(program_symbols(p));
+    }
+    let mut fol_symbols = |f: &fol::Formula| {
+        let mut sig = crate::ir::Signature::default();
+        crate::ir::lower(f).signature(&mut sig);
+        out.extend(sig.syms);
+    };
+    if let Some(s) = &task.left_spec {
+        for f in &s.formulas {
+            fol_symbols(&f.formula);
+        }
+    }
+    for e in &task.user_guide.entries {
+        if let fol::UserGuideEntry::AnnotatedFormula(f) = e {
+            if f.role == fol::Role::Assumption {
+                fol_symbols(&f.formula);
+            }
+        }
+    }
+    for e in &task.user_guide.entries {
+        if let fol::UserGuideEntry::PlaceholderDeclaration(d) = e {
+            out.remove(&d.name);
+        }
+    }
+    out
 }
 
 #[derive(Clone, Debug)]
